@@ -161,8 +161,13 @@ def run_H(case):
     beh = []
     n = 0
     model = hourly_model(zone)
-    for variant, first, days in (("mid", day - pd.Timedelta(days=1), 3), ("first", day, 2), ("last", day - pd.Timedelta(days=1), 2),
-                                 ("mid_gappy", day - pd.Timedelta(days=1), 3)):
+    variants = [("mid", day - pd.Timedelta(days=1), 3), ("first", day, 2), ("last", day - pd.Timedelta(days=1), 2),
+                ("mid_gappy", day - pd.Timedelta(days=1), 3)]
+    day_after = local_after.tz_localize(None).normalize()
+    if day_after != day:
+        # a change at local midnight: the short/long day is the one AFTER the instant; frames starting / ending on that day
+        variants += [("first_after", day_after, 2), ("last_after", day_after - pd.Timedelta(days=1), 2)]
+    for variant, first, days in variants:
         idx = local_days_index(first, days, zone)
         temp = 50.0 + 10.0 * np.sin(np.arange(len(idx)) / 5.0)
         obs = 1.0 + 0.1 * (np.arange(len(idx)) % 24)
